@@ -447,8 +447,11 @@ func checkReaders(c *core.Ctx, tabs *Tables, prefix string, full bool) {
 			}
 		}
 		c.Ob(key+"/strict-rejections", len(bad) == 0, pos, "%s", first(bad, 4))
-		// E/F: totality on blank lines and empty headers
+		// E/F: totality on blank lines and empty headers (C16 only; a panic is still a non-zero exit for C18)
 		bad = nil
+		if !full {
+			continue
+		}
 		for _, tc := range []struct {
 			name  string
 			lines []string
@@ -529,6 +532,10 @@ func checkReaders(c *core.Ctx, tabs *Tables, prefix string, full bool) {
 			{"unequal lengths before the reference", []string{">a", "ACGT", ">b", "ACG", ">ref", "ACGT"}},
 		} {
 			nEval++
+			strictCase := strings.HasPrefix(tc.name, "empty") || strings.HasPrefix(tc.name, "no leading") || strings.HasPrefix(tc.name, "invalid") || strings.HasPrefix(tc.name, "unequal")
+			if !full && !strictCase {
+				continue
+			}
 			res := runReader(c, tabs, "pkg/variants", "findReference", tc.lines, false, "ref")
 			if res.undecide != "" {
 				bad = append(bad, tc.name+": "+res.undecide)
